@@ -226,7 +226,13 @@ func (p *Program) verifyFunc(fi *FuncInfo, spec *FuncSpec) (c *Ctx, err error) {
 			if cl.Name != "" {
 				nm = "post:" + cl.Name
 			}
-			c.obligeSplit(nm+suffix, "post", fin.pc, t, endPos, cl.Text)
+			if spec.Cases && len(fin.cases) > 1 {
+				for ci, cs := range fin.cases {
+					c.obligeSplit(fmt.Sprintf("%s%s~case%d", nm, suffix, ci+1), "post", And(fin.pc, cs), t, endPos, cl.Text)
+				}
+			} else {
+				c.obligeSplit(nm+suffix, "post", fin.pc, t, endPos, cl.Text)
+			}
 			// antecedent reachability for implications (vacuity guard)
 			if antecedentCovers && cl.Expr.Kind == "implies" {
 				ant := x.specBool(penv, cl.Expr.L)
